@@ -15,13 +15,27 @@ import (
 // Case is one replayable execution: `{Fn args...}` where argument i is a
 // template constant unless bit i of Mask is set (then it is `{k}`, the k-th
 // match group of the context), compiled with or without the optimiser.
+//
+// Kind "size": a case of the SIZE sweeps; the arguments are regenerated from
+// (Shape, Variant, N) and supplied in the given Style (see size.go).
+// Kind "history": Template is compiled once and evaluated on every entry of
+// History in order; the result of the last evaluation must be the result a
+// fresh compilation gives for that entry; Kind "history-kept": the string the
+// first evaluation returned must still read the same after the others (see
+// history.go).
 type Case struct {
-	Fn       string   `json:"fn"`
-	Args     []string `json:"args"`
-	Mask     int      `json:"group_mask"`
-	Opt      bool     `json:"optimize"`
-	Template string   `json:"template,omitempty"` // informational
-	Groups   []string `json:"groups,omitempty"`   // informational
+	Kind     string     `json:"kind,omitempty"` // "" (one tuple), "size", "history", "history-kept"
+	Fn       string     `json:"fn"`
+	Args     []string   `json:"args,omitempty"`
+	Mask     int        `json:"group_mask"`
+	Opt      bool       `json:"optimize"`
+	Template string     `json:"template,omitempty"` // informational (Kind history: the compiled template)
+	Groups   []string   `json:"groups,omitempty"`   // informational
+	Shape    string     `json:"shape,omitempty"`
+	Variant  int        `json:"variant,omitempty"`
+	N        int        `json:"n,omitempty"`
+	Style    string     `json:"style,omitempty"`
+	History  [][]string `json:"history,omitempty"`
 }
 
 // encConst writes s as one template constant. The text of an argument is
@@ -98,13 +112,19 @@ func (b *builders) checkEncoding(s string) {
 }
 
 func buildTemplate(fn string, args []string, mask int) (string, []string) {
+	return buildTemplateDyn(fn, args, func(i int) bool { return i < 62 && mask&(1<<i) != 0 })
+}
+
+// buildTemplateDyn: argument i is `{k}` (the k-th group) when dyn(i), else a
+// template constant.
+func buildTemplateDyn(fn string, args []string, dyn func(i int) bool) (string, []string) {
 	var sb strings.Builder
 	sb.WriteByte('{')
 	sb.WriteString(fn)
 	var groups []string
 	for i, a := range args {
 		sb.WriteByte(' ')
-		if mask&(1<<i) != 0 {
+		if dyn(i) {
 			sb.WriteByte('{')
 			sb.WriteString(strconv.Itoa(len(groups)))
 			sb.WriteByte('}')
